@@ -4,6 +4,7 @@ import json, os, sys
 ROOT = os.path.dirname(os.path.dirname(os.path.abspath(__file__)))
 sys.path.insert(0, os.path.join(ROOT, "lib"))
 from props import PROPS
+from levels import LEVELS
 ALL = [f"C{i:02d}" for i in range(1, 21)]
 hooks_commits = [l.strip() for l in open(os.path.join(ROOT, "lib", "hook_commits.txt")) if l.strip()] if os.path.exists(os.path.join(ROOT, "lib", "hook_commits.txt")) else []
 m = {
@@ -39,9 +40,9 @@ for pid in ALL:
             "evidence_file": f"/verif/evidence/{pid}.json",
             "replay_cmd_template": "./check --replay {path}",
             "engine": "lean-model-and-proofs",
-            "level_claimed": {"category": "proof", "text": c.get("level_text", ""), "design_ref": f"DESIGN.md §4 {pid}"},
-            "level_note": c.get("level_note", ""),
-            "technique": c.get("technique", "Lean 4 theorems about an executable model + model/implementation correspondence check"),
+            "level_claimed": {"category": "proof", "text": LEVELS[pid]["text"], "design_ref": f"DESIGN.md §4 {pid}"},
+            "level_note": LEVELS[pid]["note"],
+            "technique": LEVELS[pid]["technique"],
         })
     else:
         m["not_applicable"].append({"property_id": pid, "reason": "check not built yet (work in progress; see DESIGN.md §8 build order)"})
